@@ -59,3 +59,28 @@ pub fn verif_into_iter<T>(v: Vec<T>) -> (r: VerifIter<T>) ensures r.all() == v@,
 """
 VERIF_ITER_ASSUMPTION = {"what": "R11: `for x in vec` is `let mut it = vec.into_iter(); while let Some(x) = it.next()`: VerifIter yields the elements of the vector in order, once",
                          "keys": ["struct VerifIter", "fn all", "fn pos", "fn next", "fn verif_into_iter"]}
+
+
+# R11 for loops over references: `for x in v.iter()` / `for x in &v` / `for x in v.iter().rev()`
+VERIF_REF_ITER = r"""
+#[verifier::external_body] #[verifier::reject_recursive_types(T)]
+pub struct VerifRefIter<'a, T> { _p: core::marker::PhantomData<&'a T> }
+impl<'a, T> VerifRefIter<'a, T> {
+    pub uninterp spec fn all(&self) -> Seq<T>;      // the elements in the order in which they are yielded
+    pub uninterp spec fn pos(&self) -> int;
+    #[verifier::external_body]
+    pub fn next(&mut self) -> (r: Option<&'a T>)
+        ensures
+            final(self).all() == old(self).all(),
+            (0 <= old(self).pos() < old(self).all().len()) ==> (r is Some && *r->0 == old(self).all()[old(self).pos()] && final(self).pos() == old(self).pos() + 1),
+            old(self).pos() >= old(self).all().len() ==> (r is None && final(self).pos() == old(self).pos()),
+    { unimplemented!() }
+}
+#[verifier::external_body]
+pub fn verif_ref_iter<'a, T>(v: &'a Vec<T>) -> (r: VerifRefIter<'a, T>) ensures r.all() == v@, r.pos() == 0, { unimplemented!() }
+#[verifier::external_body]
+pub fn verif_rev_iter<'a, T>(v: &'a Vec<T>) -> (r: VerifRefIter<'a, T>) ensures r.all() == v@.reverse(), r.pos() == 0, { unimplemented!() }
+"""
+VERIF_REF_ITER_ASSUMPTION = {"what": "R11: `for x in v.iter()` / `v.iter().rev()` is `let mut it = ..; while let Some(x) = it.next()`: VerifRefIter yields references to the elements of the "
+                                     "vector in order (resp. in reverse order), once",
+                             "keys": ["struct VerifRefIter", "fn all", "fn pos", "fn next", "fn verif_ref_iter", "fn verif_rev_iter"]}
